@@ -1806,8 +1806,18 @@ func ruleMarshalViaCodec(c *Ctx) {
 				return fromLookup(x.Common().Value) && len(x.Common().Args) > 0 && okVal(x.Common().Args[0], depth+1)
 			}
 			// growing the buffer before appending: append(make(...), data...) and the like keep the prefix
+			// (appending anything else to data is Marshal encoding a value itself)
 			if bi, ok := x.Common().Value.(*ssa.Builtin); ok && bi.Name() == "append" && len(x.Common().Args) == 2 {
-				return okVal(x.Common().Args[1], depth+1) || okVal(x.Common().Args[0], depth+1)
+				fresh := false
+				switch a0 := x.Common().Args[0].(type) {
+				case *ssa.MakeSlice:
+					fresh = true
+				case *ssa.Const:
+					fresh = a0.Value == nil
+				case *ssa.Slice:
+					_, fresh = a0.X.(*ssa.MakeSlice)
+				}
+				return fresh && okVal(x.Common().Args[1], depth+1)
 			}
 		case *ssa.Slice:
 			return okVal(x.X, depth+1)
@@ -1873,4 +1883,145 @@ func expandTrueConds(v ssa.Value, depth int) []ssa.Value {
 		}
 	}
 	return out
+}
+
+// ---------------------------------------------------------------------------
+// B.rawview: a slice or string header made over raw memory (unsafe.Slice,
+// unsafe.String) in the decode closure. Its length is taken on trust by every
+// later copy, index and range, so BOUND's proofs about slices say nothing
+// about it: the length must be a constant, or the construct is reported as
+// undecided (the allocation behind a raw pointer has no length BOUND could
+// compare with; the module has no such view today).
+func ruleRawViews(c *Ctx, funcs []*ssa.Function, onlyOverInput bool) {
+	n := 0
+	for _, f := range funcs {
+		for _, b := range f.Blocks {
+			for _, in := range b.Instrs {
+				call, ok := in.(*ssa.Call)
+				if !ok {
+					continue
+				}
+				bi, ok := call.Common().Value.(*ssa.Builtin)
+				if !ok || (bi.Name() != "Slice" && bi.Name() != "String") || len(call.Common().Args) != 2 {
+					continue
+				}
+				if onlyOverInput && !overByteSliceParam(call.Common().Args[0], 0) {
+					continue
+				}
+				n++
+				_, isConst := call.Common().Args[1].(*ssa.Const)
+				if onlyOverInput {
+					c.Oblige("B.rawview", false, call.Pos(), ssaFuncName(f), "unsafe."+bi.Name()+" view of the input bytes",
+						"a string or slice header made over the memory of the data parameter shares it with the caller: the decoded value changes when the caller re-uses its buffer", nil)
+					continue
+				}
+				c.Oblige("B.rawview", isConst, call.Pos(), ssaFuncName(f), "unsafe."+bi.Name()+" view of raw memory",
+					"a header made with unsafe."+bi.Name()+" is believed by every copy, index and range that follows; its length comes from the input here and nothing relates it to the size of the allocation behind the pointer (a body whose length is not a multiple of the element size overruns the array by up to size-1 bytes): undecided, reported", nil)
+			}
+		}
+		c.Funcs[ssaFuncName(f)] = true
+	}
+	c.Note("B.rawview: %d functions of the decode closure scanned for unsafe.Slice/unsafe.String views, %d found", len(funcs), n)
+}
+
+// overByteSliceParam: the pointer is the address of (an element of) a byte
+// slice parameter, possibly re-sliced or converted on the way.
+func overByteSliceParam(v ssa.Value, depth int) bool {
+	if depth > 8 {
+		return false
+	}
+	switch x := v.(type) {
+	case *ssa.Parameter:
+		return isByteSlice(x.Type())
+	case *ssa.Convert:
+		return overByteSliceParam(x.X, depth+1)
+	case *ssa.ChangeType:
+		return overByteSliceParam(x.X, depth+1)
+	case *ssa.IndexAddr:
+		return overByteSliceParam(x.X, depth+1)
+	case *ssa.Slice:
+		return overByteSliceParam(x.X, depth+1)
+	case *ssa.Phi:
+		for _, e := range x.Edges {
+			if overByteSliceParam(e, depth+1) {
+				return true
+			}
+		}
+	case *ssa.Call:
+		if bi, ok := x.Common().Value.(*ssa.Builtin); ok && (bi.Name() == "SliceData" || bi.Name() == "StringData" || bi.Name() == "Add") && len(x.Common().Args) > 0 {
+			return overByteSliceParam(x.Common().Args[0], depth+1)
+		}
+	}
+	return false
+}
+
+// ---------------------------------------------------------------------------
+// T.slice-presence: a slice wrapper has no way of writing "this element is
+// absent" - a packed varint is a value, a counted element is its bytes. For
+// pointer elements the documented normalisations say what happens to nil
+// entries; for the null types (explicit presence without a pointer) nothing
+// does, and the fixed-width wrapper already refuses them (T.fixedwrap). The
+// other three wrappers are obliged to look at the element codec's
+// ExplicitPresence on the way to their construction as well.
+func ruleSlicePresence(c *Ctx) {
+	p := c.P
+	name := "plenc.Plenc.CodecForTypeRegistry"
+	f := p.ssaFunc(name)
+	if f == nil {
+		c.Oblige("T.slice-presence", false, token.NoPos, name, "function", "not found", nil)
+		return
+	}
+	var mentionsEP func(v ssa.Value, depth int) bool
+	mentionsEP = func(v ssa.Value, depth int) bool {
+		if depth > 6 {
+			return false
+		}
+		switch x := v.(type) {
+		case *ssa.UnOp:
+			if fa, ok := x.X.(*ssa.FieldAddr); ok && x.Op == token.MUL && fieldName(fa) == "ExplicitPresence" {
+				return true
+			}
+			return mentionsEP(x.X, depth+1)
+		case *ssa.Field:
+			if st, ok := x.X.Type().Underlying().(*types.Struct); ok && st.Field(x.Field).Name() == "ExplicitPresence" {
+				return true
+			}
+		case *ssa.BinOp:
+			return mentionsEP(x.X, depth+1) || mentionsEP(x.Y, depth+1)
+		case *ssa.Phi:
+			for _, e := range x.Edges {
+				if mentionsEP(e, depth+1) {
+					return true
+				}
+			}
+		}
+		return false
+	}
+	n := 0
+	for _, b := range f.Blocks {
+		for _, in := range b.Instrs {
+			mi, ok := in.(*ssa.MakeInterface)
+			if !ok {
+				continue
+			}
+			tn := typeName(mi.X.Type())
+			if tn != "WTVarIntSliceWrapper" && tn != "WTLengthSliceWrapper" && tn != "ProtoSliceWrapper" {
+				continue
+			}
+			n++
+			conds, _ := controllingConds(b)
+			okP := false
+			for _, cd := range conds {
+				if mentionsEP(cd, 0) {
+					okP = true
+				}
+			}
+			c.Oblige("T.slice-presence", okP, mi.Pos(), name, tn+" is built with the element codec's explicit presence looked at",
+				"an element that can be absent without being a pointer (null.Int, null.Bool, null.String, null.Time) has no absent form inside a slice: an invalid element is written as its zero value and reads back Valid - []null.Float is refused for this reason (T.fixedwrap), the other element types are not", nil)
+		}
+	}
+	if n == 0 {
+		c.Oblige("T.slice-presence", false, f.Pos(), name, "construction of the slice wrappers", "not found: the rule no longer sees the code it was written for", nil)
+	}
+	c.Floor("T.slice-presence", 3)
 }
